@@ -218,10 +218,16 @@ def do_replay(mod, path):
     with open(path) as f:
         data = json.load(f)
     case = data['case'] if isinstance(data, dict) and 'case' in data else data
-    ctx = Ctx(mod.ID, 'quick', 0, jobname='replay')
+    known, _fixed = load_known(mod.ID)
+    ctx = Ctx(mod.ID, 'quick', 0, jobname='replay', suppressed=[k['key'] for k in known])
     try:
         mod.check_case(case, ctx)
     except Violation as v:
+        if ctx.is_suppressed(v.key):
+            ent = [k for k in known if __import__('fnmatch').fnmatchcase(v.key, k['key'])][0]
+            print('KNOWN-FINDING: property={} {} [key={}]'.format(mod.ID, ent['what'], v.key))
+            print('REPLAY-OK property={} {} (only a known finding)'.format(mod.ID, path))
+            return 0
         print('  {}: {}'.format(v.key, v.msg))
         if v.detail:
             print(v.detail)
@@ -236,6 +242,8 @@ def do_replay(mod, path):
         print(v.detail)
         print('VIOLATION property={} replay={}'.format(mod.ID, path))
         return 1
+    for key, n in ctx.suppressed_hits.items():
+        print('KNOWN-FINDING: property={} key={} [{} hit(s) in this case]'.format(mod.ID, key, n))
     print('REPLAY-OK property={} {}'.format(mod.ID, path))
     return 0
 
